@@ -80,6 +80,8 @@ class _TransformationWriter:
         self.transformer = transformer
 
     def write(self, source: StringSourceContents, output: TextIO):
+        # The process writes directly to the file descriptor: text written earlier must not stay in the buffer.
+        output.flush()
         command_processor = self._command_processor(source, output)
         command_processor.process(
             self.environment.process_execution_settings,
